@@ -2,11 +2,17 @@ package ast
 
 import (
 	"strconv"
+	"sync"
 )
 
+// capture_group_number is shared by every parse so parse_mutex serialises concurrent parses
+var parse_mutex sync.Mutex
 var capture_group_number int = 0
 
 func parse(all_tokens []*Token) ([]AstCommand, error) {
+	parse_mutex.Lock()
+	defer parse_mutex.Unlock()
+
 	// whitespace and comments may appear between any two tokens and mean nothing,
 	// so drop them here once instead of skipping them in every parse function
 	tokens := []*Token{}
